@@ -29,6 +29,13 @@ CHECKS = {
             "PriorityResource/PreemptiveResource vs validity predicates over observed grants", EXPL,
             "Grants are observed as Request events being triggered (schedule hook of an Environment subclass); evictions as "
             "Interruption events carrying Preempted.", "4/C06"),
+    "C07": ("model-based histories (put/get/cancel grouped per instant, clock advances) on Container/Store/PriorityStore/"
+            "FilterStore vs a model updated only from observed grants; exact Fraction arithmetic", EXPL,
+            "Grants are observed as Put/Get events being triggered (schedule hook of an Environment subclass).", "4/C07"),
+    "C19": ("generated scenarios (creator, sleeping actors calling stop/restart, scripted callback) vs a reference timer replayed "
+            "over the harness log in execution order", EXPL,
+            "Same-instant order of calls and expiries is taken from the harness log; two cases are left unjudged as unspecified "
+            "(see rule).", "4/C19"),
     "C20": ("differential RealtimeEnvironment vs Environment on generated programs under a virtual wall clock; two-directional "
             "strict-mode prediction; never-early check at every occurrence", EXPL,
             "onl.sim.rt.monotonic/sleep are replaced by a scripted virtual clock; probes at the head of event.callbacks.", "4/C20"),
